@@ -109,7 +109,7 @@ ODD_FIELDS = [(b"Connection", [b"close", b"keep-alive", b"Close", b"foo, close",
               (b"X-Sendfile", [b"/etc/passwd"]), (b"X-LIGHTTPD-send-file", [b"/x"]), (b"X-Lighttpd-Foo", [b"1"]),
               (b"Content-Length", [b"3", b"+4", b"5 ", b"abc", b"", b"99999999999999999999", b"0"]),
               (b"Transfer-Encoding", [b"chunked", b"gzip"]), (b"Bad Name", [b"v"]), (b"Bad ", [b"v"]),
-              (b"Empty", [b""]), (b"", [b"v"]), (b"Trailer", [b"X-T"]), (b"Keep-Alive", [b"timeout=5"])]
+              (b"Empty", [b""]), (b"", [b"v"]), (b"Keep-Alive", [b"timeout=5"])]
 STATUSES = [200, 200, 200, 200, 201, 204, 206, 301, 302, 304, 400, 401, 403, 404, 500, 502, 503, 599, 205, 299]
 BODY_ALPHA = b"ab\r\n0;:\x00\xff "
 
@@ -233,9 +233,11 @@ VERS = [11, 11, 11, 10, 20]
 ENDS = ["eof", "eof", "eof", "rst", "err", "hup", "none"]
 
 
-def corrupt1(blk, rng):
+def corrupt1(blk, rng, nonul=False):
     i = rng.randrange(len(blk))
     b = bytes([rng.choice([0, 9, 10, 13, 32, 58, 59, 48, 49, 65, 102, 103, 127, 255, rng.randint(0, 255)])])
+    if nonul and b == b"\0":
+        b = b"\x01"
     kind = rng.randint(0, 2)
     if kind == 0:
         return blk[:i] + b + blk[i + 1:]
@@ -254,7 +256,7 @@ def gen_relay(ctx):
         d = rand_resp(rng, be, valid)
         data = render(d)
         if not valid and rng.random() < 0.5 and data:
-            data = corrupt1(data, rng)
+            data = corrupt1(data, rng, d["framing"] == "chunked")
         end = rng.choice(ENDS)
         if rng.random() < 0.3 and data:
             data = data[:rng.randrange(len(data) + 1)]           # backend stops early
@@ -353,38 +355,55 @@ def ref_fields(lines):
 def ref_backend(data, be):
     """Classify what the backend sent (independent of lighttpd's leniency).
     returns dict(kind=..., ...):
-      kind 'nohead'   header block never completed
-      kind 'badhead'  proxy: not an HTTP/1.x status line / status unusable
-      kind 'lenient'  something a strict parser would not accept but that is not clearly broken
+      kind 'nohead'   the header block was never completed
+      kind 'badhead'  not acceptable as a response head at all (proxy: no HTTP/1.x status line;
+                      SCGI/FastCGI: first line is not a field)
+      kind 'lenient'  something a strict parser would not accept (or a lighttpd special case) that is not
+                      clearly broken: only the generic checks apply
       kind 'msg'      strictly well-formed head: interims, status, fields, framing, body, complete, badframing"""
     msgs = []
     rest = data
     while True:
-        # header block: lines up to the first empty line; one line-end convention throughout
-        e1, e2 = rest.find(b"\r\n\r\n"), rest.find(b"\n\n")
-        if e1 < 0 and e2 < 0:
-            if rest[:2] == CRLF or rest[:1] == b"\n":
-                pass
+        # header block: lines up to the first empty line
+        pos, lines, eols, end = 0, [], set(), None
+        while True:
+            j = rest.find(b"\n", pos)
+            if j < 0:
+                break
+            l = rest[pos:j]
+            pos = j + 1
+            if l in (b"", b"\r"):
+                eols.add(b"\r\n" if l else b"\n")
+                end = pos
+                break
+            if l.endswith(b"\r"):
+                eols.add(b"\r\n"); l = l[:-1]
             else:
-                return dict(kind="nohead", interims=msgs)
-        if rest[:2] == CRLF or rest[:1] == b"\n":
+                eols.add(b"\n")
+            lines.append(l)
+        if lines:
+            first = lines[0]
+            if b":" not in first and (not first.startswith(b"HTTP/") or len(first) < 11):
+                # lighttpd: CGI output without header is passed on as body; others: 502
+                return dict(kind="lenient" if be == "cgi" else "badhead")
+        if end is None:
+            return dict(kind="nohead")
+        if not lines:
             return dict(kind="lenient", why="empty head")
-        if e1 >= 0 and (e2 < 0 or e1 < e2):
-            head, after, eol = rest[:e1], rest[e1 + 4:], CRLF
-        else:
-            head, after, eol = rest[:e2], rest[e2 + 2:], b"\n"
-        lines = head.split(eol)
-        if any(b"\n" in l or b"\r" in l for l in lines):
+        if len(eols) != 1 or any(b"\r" in l for l in lines):
             return dict(kind="lenient", why="mixed line ends")
-        if len(head) + 4 > 60000:
+        if end > 60000:
             return dict(kind="lenient", why="huge head")
+        after = rest[end:]
         status = None
         first = lines[0]
         if first.startswith(b"HTTP/"):
             ok = len(first) >= 12 and first[5:6] == b"1" and first[6:7] == b"." and first[7:8] in (b"0", b"1") \
-                and first[8:9] == b" " and first[9:12].isdigit() and (len(first) == 12 or first[12:13] == b" ")
+                and first[8:9] == b" " and first[9:12].isdigit()
             if not ok:
                 return dict(kind="badhead" if be == "proxy" else "lenient", why="status line")
+            if not (len(first) == 12 or first[12:13] == b" ") or int(first[9:12]) < 100:
+                return dict(kind="lenient", why="status line tail")
             status = int(first[9:12])
             lines = lines[1:]
         elif be == "proxy":
@@ -426,9 +445,8 @@ def ref_backend(data, be):
         te = [v for k, v in fl if k.lower() == b"transfer-encoding"]
         if len(cl) > 1 or len(te) > 1 or (cl and te):
             return dict(kind="lenient", why="ambiguous framing")
-        r = dict(kind="msg", interims=msgs, status=status, trailers=[],
-                 fields=[(k, v) for k, v in fl if k.lower() not in HOP], badframing=False,
-                 announced_trailer=b"trailer" in names)
+        r = dict(kind="msg", interims=msgs, status=status, trailers=[], excess=0,
+                 fields=[(k, v) for k, v in fl if k.lower() not in HOP], badframing=False)
         if te:
             if te[0].lower() != b"chunked":
                 return dict(kind="lenient", why="transfer-encoding value")
@@ -438,6 +456,11 @@ def ref_backend(data, be):
             r["complete"] = d[0] == "ok"
             r["badframing"] = d[0] == "bad"
             if d[0] == "ok":
+                if ref_fields([k + b":" + v for k, v in d[2]]) is None or \
+                        any(b":" not in tl for tl in after[:d[3]].split(b"\r\n0")[-1].split(CRLF)[1:] if tl):
+                    return dict(kind="lenient", why="trailer syntax")
+                if (b"trailer" in names) != bool(d[2]):
+                    return dict(kind="lenient", why="Trailer announcement does not match")
                 r["trailers"] = d[2]
                 r["excess"] = len(after) - d[3]
         elif cl:
@@ -503,7 +526,7 @@ def client_h1(wire, head_req):
             return dict(ok=False, why="client framing fields: TE=%r CL=%r" % (te, cl))
         d = ref_dechunk(after)
         if d[0] == "bad":
-            return dict(ok=False, why="client chunked framing invalid")
+            return dict(ok=False, why="client chunked framing invalid", chunksyntax=True)
         r.update(framing="chunked", body=d[1], complete=d[0] == "ok")
         if d[0] == "ok":
             r["trailers"] = d[2]
@@ -552,12 +575,46 @@ def client_h2(evs):
 def by_name(fields):
     d = {}
     for k, v in fields:
-        if k.lower() in HOP or k.lower().startswith(b"x-lighttpd-") or k.lower() in (b"x-sendfile",):
+        lk = k.lower()
+        if lk in HOP or lk.startswith(b"x-lighttpd-") or lk in (b"x-sendfile",):
             continue
-        if k.lower() == b"content-type" and v.startswith(b"application/javascript"):
-            v = b"text/javascript" + v[22:]       # documented rewrite in http_response_process_headers
-        d.setdefault(k.lower(), []).append(v)
+        v = v.strip(b" \t\r")
+        if not v:
+            continue                          # lighttpd does not store fields with an empty value
+        if lk == b"content-type" and v.startswith(b"application/javascript"):
+            v = b"text/javascript" + v[22:]   # documented rewrite in http_response_process_headers
+        d.setdefault(lk, []).append(v)
     return d
+
+
+def backend_bad_cl(resp):
+    """the (last) response head from the backend carries a Content-Length that is not a number < 2^63"""
+    for l in resp.split(b"\n"):
+        if l[:15].lower() == b"content-length:":
+            v = l[15:].strip(b" \t\r")
+            if v.startswith(b"+"):
+                v = v[1:]
+            if v and (not v.isdigit() or int(v) > 2 ** 63 - 1):
+                return True
+    return False
+
+
+M_KA_CL = ("Content-Length-delimited response cut short by the backend is relayed with keep-alive: the client "
+           "cannot see the truncation and takes the next response as body")
+M_KA_BADCL = ("invalid Content-Length value from the backend is relayed verbatim and the connection is kept alive "
+              "(the client cannot delimit the message)")
+M_KA_INC = "connection kept alive although the client-side message is incomplete or not self-delimited"
+M_KA_EXC = "bytes follow the end of the client-side message on a kept-alive connection"
+M_CL_EXC = "more body bytes sent to the client than the announced Content-Length"
+M_SYNTAX = "client-side message is not valid HTTP: "
+M_NOHEAD = "response ended without a response head"
+M_PRE = "backend failed before it delivered a usable response head, but the client did not get a 5xx"
+M_BROKEN_H1 = ("backend response that is truncated / has malformed chunked framing / was cut off by a backend "
+               "failure is presented to the HTTP/1.x client as a complete non-5xx response (failure after the "
+               "backend head was parsed, before the client head was sent: computed Content-Length)")
+M_BROKEN_H2 = ("backend response that is truncated / malformed / cut off by a backend failure ends the HTTP/2 "
+               "stream with END_STREAM (complete) instead of RST_STREAM")
+M_RELAY = "complete well-formed backend response is not relayed faithfully: "
 
 
 def oracle(line, out):
@@ -571,133 +628,369 @@ def oracle(line, out):
     be, ver, stream, head_req, end = t[1], int(t[2]), int(t[3]), t[4] == "H", t[5]
     data = b"".join(C.unhx(x) for x in t[6:])
     o = out.split(" ")
-    evs = [x for x in o if x and x[0] in "WIHTER" and (x in ("E", "R") or x[1:2] == ":")]
-    kv = dict(x.split("=", 1) for x in o if "=" in x and x[0] not in "WIHT")
+    evs = [x for x in o if x in ("E", "R") or x[:2] in ("W:", "I:", "H:", "T:")]
+    kv = dict(x.split("=", 1) for x in o if "=" in x and x[:2] not in ("W:", "I:", "H:", "T:"))
     cend = kv.get("end")
     if "READERR" in out:
         return "harness could not read back the client queue"
     # ---- what the backend sent
-    fin_ok = True
+    ended = True
     if be == "fcgi":
         resp, ended, _ = fcgi_decode(data)
-        fin_ok = ended
     else:
         resp = data
     ref = ref_backend(resp, be)
+    good = ref["kind"] == "msg" and not ref["badframing"]
     # ---- what the client saw
     if ver == 20:
         cv = client_h2(evs)
     else:
         wire = b"".join(C.unhx(x[2:]) for x in evs if x[0] == "W")
         cv = client_h1(wire, head_req)
-    good = ref["kind"] == "msg" and not ref["badframing"]
     if not cv["ok"]:
-        if cv.get("fieldsyntax") and not good:
-            return None                      # garbage field from the backend passed through
-        if cv.get("clsyntax") and not good:
-            return None
-        return "client-side message is not valid HTTP: " + cv["why"]
+        if cv.get("clsyntax") and cend == "ka" and backend_bad_cl(resp):
+            return M_KA_BADCL
+        if (cv.get("fieldsyntax") or cv.get("clsyntax") or cv.get("chunksyntax")) and not good:
+            return None                      # garbage from the backend passed through (lenient territory)
+        return M_SYNTAX + cv["why"]
+    started = not cv.get("empty") and cv.get("status") is not None
     # ---- generic: keep-alive only after exactly one complete, self-delimited message
     if cend == "ka":
-        if cv.get("empty") or cv.get("headonly") or cv["status"] is None:
-            return "connection kept alive without a complete response"
+        if not started:
+            return M_KA_INC
         if cv["complete"] is not True:
-            if ref["kind"] == "msg" and ref["framing"] == "cl" and ref["complete"] is False:
-                return ("Content-Length-delimited backend response truncated by the backend is relayed with "
-                        "the full Content-Length and the connection is kept alive (client waits / next response "
-                        "is taken as body)")
-            return "connection kept alive after an incomplete / close-delimited message"
+            if cv.get("framing") == "cl" and backend_bad_cl(resp):
+                return M_KA_BADCL
+            return M_KA_CL if cv.get("framing") == "cl" else M_KA_INC
         if cv["excess"]:
-            return "connection kept alive with bytes after the end of the message"
-    if cend in ("ka", "close") and ver != 20 and not cv.get("empty") and not cv.get("headonly") \
-            and cv["framing"] == "cl" and cv["excess"]:
-        return "more body bytes sent than the Content-Length announces"
-    if cv.get("empty") or cv.get("status") is None:
-        return None if cend == "pend" else "response ended without a response head"
-    # ---- the backend stream as a whole: complete and well-formed, or broken?
-    ended_clean = end in ("eof", "hup")
-    if good:
-        complete = ref["complete"] if ref["framing"] != "eof" else (ended_clean if be != "fcgi" else True)
-        if be == "fcgi" and not fin_ok and not (ref["framing"] in ("cl", "chunked") and ref["complete"]):
-            complete = False
-        if be == "fcgi" and ref["framing"] == "cl" and not fin_ok:
-            complete = False                 # FastCGI: the record stream itself must end properly
-        if be == "fcgi" and ref["framing"] == "chunked" and not fin_ok and end == "none":
-            complete = ref["complete"]
-    broken = None
-    if ref["kind"] == "nohead" and end != "none":
-        broken = "backend ended before the response head was complete"
-    elif ref["kind"] == "badhead":
-        broken = "backend response head is not an HTTP/1.x status line"
-    elif ref["kind"] == "msg" and ref["badframing"]:
-        broken = "backend chunked framing is invalid"
-    elif good and end != "none":
-        if ref["framing"] == "cl" and not ref["complete"]:
-            broken = "backend closed before the announced Content-Length"
-        elif ref["framing"] == "chunked" and not ref["complete"]:
-            broken = "backend closed inside the chunked body"
-        elif ref["framing"] == "eof" and not ended_clean and be != "fcgi":
-            broken = "backend connection failed while sending an EOF-delimited body"
-        elif be == "fcgi" and not fin_ok and not (ref["framing"] == "chunked" and ref["complete"]):
-            broken = "FastCGI stream ended without END_REQUEST"
+            return M_KA_EXC
+    if started and ver != 20 and cv["framing"] == "cl" and cv["excess"]:
+        return M_CL_EXC
+    if not started:
+        return None if cend == "pend" else M_NOHEAD
     nobody = head_req or cv["status"] in (204, 205, 304)
+    # ---- is the backend stream, as a whole, broken?
+    clean = end in ("eof", "hup")
+    broken = pre = False
+    if end != "none" or (be == "fcgi" and ended):
+        if ref["kind"] == "nohead":
+            pre = not (be == "fcgi" and ended and False)
+        elif ref["kind"] == "badhead":
+            pre = True
+        elif ref["kind"] == "msg":
+            if ref["badframing"]:
+                broken = True
+            elif ref["framing"] == "cl":
+                broken = not ref["complete"]
+            elif ref["framing"] == "chunked":
+                broken = not ref["complete"]
+            else:
+                broken = (not ended) if be == "fcgi" else (not clean)
+            if be == "fcgi" and not ended and ref["framing"] == "cl":
+                broken = True                # the record stream itself did not end properly
+    elif ref["kind"] == "badhead":
+        pre = True
+    elif ref["kind"] == "msg" and ref["badframing"]:
+        broken = True
+    if pre:
+        if cend != "pend" and cv["status"] < 500:
+            return M_PRE
+        return None
     if broken:
-        if cend == "pend":
-            return None
-        looks_complete = cv["complete"] is True and cv["status"] < 500
-        if looks_complete and not nobody:
-            where = "HTTP/2 stream ended with END_STREAM" if ver == 20 else \
-                ("response head not yet sent (buffered)" if stream == 0 or True else "")
-            mode = "h2" if ver == 20 else ("buffered" if not cv.get("framing") == "chunked" else "streamed")
-            return "broken backend response presented as complete %d response [%s; %s]" % (
-                cv["status"] // 100 * 100, broken, mode)
+        if cend != "pend" and cv["complete"] is True and cv["status"] < 500 and not nobody:
+            return M_BROKEN_H2 if ver == 20 else M_BROKEN_H1
         return None
-    if not good or not complete:
-        return None
-    if ref.get("excess"):
-        return None                           # garbage after the message: lenient territory
+    if not good or ref["excess"]:
+        return None                           # lenient territory: only the generic checks above
+    if end == "none" and not (be == "fcgi" and ended):
+        if be == "fcgi" and not (ref["framing"] == "chunked" and ref["complete"]):
+            return None                       # FastCGI: waiting for END_REQUEST
+        if not (ref["framing"] in ("cl", "chunked") and ref["complete"]):
+            return None                       # backend has not finished yet
     # ---- faithful relay of a complete, well-formed backend response
-    if ref["framing"] == "eof" and be != "fcgi" and end == "none":
-        return None
     if cend == "pend":
-        if ref["framing"] in ("cl",) and be != "fcgi":
-            return "complete Content-Length response not finished towards the client"
-        if ref["framing"] == "chunked" and ref["status"] is not None:
-            return "complete chunked response not finished towards the client"
-        return None
+        if nobody:
+            return None
+        return M_RELAY + "the response is complete at the backend but never finished towards the client"
     if cv["status"] != ref["status"]:
-        return "status changed in relay: backend %d, client %d" % (ref["status"], cv["status"])
+        return M_RELAY + "status differs"
     want_i = [s for s, _ in ref["interims"]] if ver != 10 else []
     if [s for s, _ in cv["interims"]] != want_i:
-        return "interim responses not relayed in order: backend %r, client %r" % (want_i, [s for s, _ in cv["interims"]])
+        return M_RELAY + "interim (1xx) responses are not relayed in order"
     if ver != 10:
         for (s, bf), (_, cf) in zip(ref["interims"], cv["interims"]):
             if by_name(bf) != by_name(cf):
-                return "interim response fields changed in relay"
+                return M_RELAY + "fields of an interim (1xx) response differ"
     bfields, cfields = by_name(ref["fields"]), by_name(cv["fields"])
-    tr = by_name(ref["trailers"])
-    ctr = by_name(cv["trailers"])
+    tr, ctr = by_name(ref["trailers"]), by_name(cv["trailers"])
+    if cv["status"] == 304:
+        bfields.pop(b"content-encoding", None)          # h1_send_headers drops it for 304 on purpose
+        cfields.pop(b"content-encoding", None)
     for k, vs in bfields.items():
-        got = cfields.get(k, [])
         if k in tr or k in ctr:
             continue
-        if got != vs:
-            return "end-to-end field %r changed in relay: backend %r, client %r" % (k, vs, got)
+        if cfields.get(k, []) != vs:
+            return M_RELAY + "an end-to-end header field is missing or altered"
     for k, vs in cfields.items():
-        if k not in bfields and k not in tr and not (k == b"content-type" and cv["status"] >= 400):
-            return "field %r appears in the client response but not in the backend response" % k
-    if tr and not (ver == 10 and stream != 0) and not nobody:
+        if k not in bfields and k not in tr:
+            return M_RELAY + "the client response has a header field the backend did not send"
+    if tr and not nobody and not (ver == 10 and cv.get("framing") == "close"):
         for k, vs in tr.items():
             got = ctr.get(k, []) + [v for v in cfields.get(k, []) if v not in bfields.get(k, [])]
-            if sorted(got) != sorted(vs) and not (k in bfields):
-                return "trailer field %r not relayed faithfully: backend %r, client %r" % (k, vs, got)
-    if not nobody:
-        if cv["complete"] is False or (cv["complete"] is None and cend != "close"):
-            if ref["framing"] == "chunked" and not any(k.lower() == b"status" for k, _ in []) and cv["framing"] == "chunked":
-                return "complete well-formed chunked backend response reaches the client without its last-chunk (looks truncated)"
-            return "complete well-formed backend response reaches the client incomplete"
-        if cv["body"] != ref["body"]:
-            return "body bytes changed in relay (%d backend bytes, %d client bytes)" % (len(ref["body"]), len(cv["body"]))
-    elif cv["body"]:
-        return "body sent for a HEAD request / 204 / 304 response"
+            if sorted(got) != sorted(vs) and k not in bfields:
+                return M_RELAY + "a trailer field is missing or altered"
+    if nobody:
+        if cv["body"]:
+            return M_RELAY + "body sent for a HEAD request / 204 / 304 response"
+        return None
+    if cv["complete"] is False or (cv["complete"] is None and cend != "close"):
+        if cv.get("framing") == "chunked":
+            return M_RELAY + "the chunked client message lacks its last-chunk (looks truncated)"
+        return M_RELAY + "the client message is incomplete"
+    if cv["body"] != ref["body"]:
+        return M_RELAY + "body bytes differ"
     return None
+
+
+def oracle_dechunk(t, out):
+    data = b"".join(C.unhx(x) for x in t[3:])
+    if b"\x00" in data:
+        return None
+    ref = ref_dechunk(data)
+    o = dict(x.split("=", 1) for x in out.split(" ")[1:] if "=" in x)
+    if out.startswith("err"):
+        if ref[0] == "ok" and len(data) == ref[3]:
+            return "valid chunked body rejected by the backend decoder for this segmentation"
+        if ref[0] == "more":
+            return "valid prefix of a chunked body rejected by the backend decoder for this segmentation"
+        return None
+    if o.get("fin") == "1":
+        if ref[0] == "more":
+            return "backend chunked decoder reports a complete body for an incomplete chunked stream"
+        if ref[0] == "bad":
+            return None                       # lenient chunk-size line syntax
+        if C.unhx(o["out"]) != ref[1] and t[2] == "0":
+            return "decoded chunked body differs from the RFC decoding"
+    elif ref[0] == "ok" and len(data) == ref[3]:
+        return "complete chunked body not recognised as complete"
+    if ref[0] == "bad" and not (len(data) - data.rfind(b"\n") > 1000):
+        # lenient size lines are not errors of the property: only report accepted *data* framing errors
+        return None
+    if t[2] == "0" and ref[0] in ("ok", "more") and C.unhx(o["out"]) != ref[1][:len(C.unhx(o["out"]))]:
+        return "decoded bytes are not a prefix of the RFC decoding"
+    return None
+
+
+def oracle_fcgi(t, out):
+    data = b"".join(C.unhx(x) for x in t[1:])
+    want, ended, _ = fcgi_decode(data)
+    o = dict(x.split("=", 1) for x in out.split(" ")[1:] if "=" in x)
+    if C.unhx(o["out"]) != want:
+        return "FastCGI STDOUT content not reassembled exactly (padding / record boundaries)"
+    if (out.split(" ")[0] == "fin") != ended:
+        return "FastCGI END_REQUEST detection differs from the record stream"
+    return None
+
+
+def classify(line, out):
+    t = line.split(" ")
+    o = out.split(" ")
+    if t[0] == "relay":
+        kv = dict(x.split("=", 1) for x in o if "=" in x and x[0] not in "WIHT")
+        nseg = min(len(t) - 6, 4)
+        ni = sum(1 for x in o if x.startswith("I:"))
+        wire = b"".join(C.unhx(x[2:]) for x in o if x.startswith("W:"))
+        fr = "te" if b"\r\nTransfer-Encoding: chunked\r\n" in wire[:600] else ("cl" if b"\r\nContent-Length: " in wire[:600] else "x")
+        if t[2] != "20":
+            ni = wire.count(b"HTTP/1.1 1")
+        return "relay:%s:%s:%s:%s:%s:n%d:%s:st%s:fl%s:i%d:%s" % (t[1], t[2], t[3], t[4], t[5], nseg, kv.get("end"),
+                                                              kv.get("st", "")[:1], kv.get("fl"), min(ni, 2), fr)
+    if t[0] == "dechunk":
+        return "dechunk:%s:n%d:%s:%s" % (t[2], min(len(t) - 3, 4), o[0], [x for x in o if x.startswith("fin=")][:1])
+    return "fcgi:n%d:%s" % (min(len(t) - 1, 4), o[0])
+
+
+# ------------------------------------------------------------------ exhaustive small scope
+SHORT_PROXY = [
+    b"HTTP/1.1 200 OK\r\nContent-Length: 3\r\n\r\nabc",
+    b"HTTP/1.1 200 OK\r\nTransfer-Encoding: chunked\r\n\r\n2\r\nhi\r\n0\r\n\r\n",
+    b"HTTP/1.1 200 OK\r\nTransfer-Encoding: chunked\r\nTrailer: X-T\r\n\r\n1\r\na\r\n0\r\nX-T: v\r\n\r\n",
+    b"HTTP/1.1 103 Early Hints\r\nLink: </a>\r\n\r\nHTTP/1.1 200 OK\r\nContent-Length: 1\r\n\r\nx",
+    b"HTTP/1.0 404 Not Found\r\nX-A: b\r\n\r\nnope",
+    b"HTTP/1.1 200 OK\nContent-Length: 2\n\nok",
+]
+SHORT_CGI = [
+    b"Status: 201\r\nContent-Length: 2\r\n\r\nok",
+    b"Content-Type: text/plain\r\n\r\nhello",
+    b"Location: /x\r\n\r\n",
+    b"Status: 200\r\nTransfer-Encoding: chunked\r\n\r\n3\r\nabc\r\n0\r\n\r\n",
+    b"no header here\nbody",
+    b"\r\nbody only",
+]
+
+
+def gen_exhaustive(ctx):
+    """every composition of the interesting region (≤ 11/13 bytes) of short responses, with every end kind,
+    and every cut point (truncation) of the same responses"""
+    lines = []
+    width = 11 if ctx.quick else 13
+    for be, pool in (("proxy", SHORT_PROXY), ("scgi", SHORT_CGI), ("cgi", SHORT_CGI[4:])):
+        for data in pool:
+            # regions: end of the head + start of the body, and the tail of the message
+            hb = max(data.find(b"\r\n\r\n"), data.find(b"\n\n"))
+            regions = {(max(0, hb - 3), min(len(data), max(0, hb - 3) + width)),
+                       (max(0, len(data) - width), len(data)), (0, min(len(data), width))}
+            for lo, hi in sorted(regions):
+                for segs in split_region(data, lo, hi):
+                    for ver, stream in ((11, 1), (11, 0)) if ctx.quick else ((11, 1), (11, 0), (10, 1), (20, 1), (11, 2)):
+                        lines.append(line(be, ver, stream, "G", "eof", segs))
+            for cut in range(len(data) + 1):
+                for end in ("eof", "rst", "err", "hup", "none"):
+                    for ver in (11, 10, 20):
+                        for stream in (0, 1, 2):
+                            lines.append(line(be, ver, stream, "G", end, [data[:cut]]))
+                            if 1 < cut:
+                                lines.append(line(be, ver, stream, "G", end, [data[:cut - 1], data[cut - 1:cut]]))
+    # FastCGI: every cut point of a record stream, and every split of its tail
+    for body in (b"Status: 200\r\nContent-Type: a/b\r\n\r\nhello", b"Content-Length: 3\r\n\r\nabc"):
+        recs = fcgi_rec(6, body[:9], 3) + fcgi_rec(6, body[9:], 0) + fcgi_rec(7, b"e!", 2) + fcgi_rec(6, b"") \
+            + fcgi_rec(3, b"\0" * 8)
+        for cut in range(len(recs) + 1):
+            for end in ("eof", "rst", "none"):
+                for ver, stream in ((11, 0), (11, 1), (10, 1), (20, 1)):
+                    lines.append(line("fcgi", ver, stream, "G", end, [recs[:cut]]))
+        for lo in range(0, len(recs) - width, 7):
+            for segs in split_region(recs, lo, lo + (width - 2)):
+                lines.append(line("fcgi", 11, 1, "G", "eof", segs))
+    return lines
+
+
+def gen_dechunk(ctx):
+    rng = ctx.rng
+    lines = []
+    shorts = [b"2\r\nhi\r\n0\r\n\r\n", b"1\r\na\r\n0\r\nA:b\r\n\r\n", b"1;x\r\na\r\n00\r\n\r\n", b"1\r\na\rX", b"1\na\r\n0\r\n\r\n",
+              b"0\r\nA: b\r\nC:d\r\n\r\n"[:13], b"a\r\n0123456789\r\n0\r\n\r\n"[-13:], b"0\r\n\r\nX"]
+    for d in shorts:
+        d = d[:13] if ctx.quick else d[:15]
+        for segs in all_splits(d):
+            for sc in (0, 1):
+                lines.append("dechunk 8192 %d %s" % (sc, " ".join(C.hx(s) for s in segs)))
+    n = 20000 if ctx.quick else 200000
+    for _ in range(n):
+        body = rand_body(rng, rng.choice([0, 1, 2, 5, 17, 40])).replace(b"\x00", b"a")
+        k = rng.randint(1, 3)
+        tr = [(rng.choice([b"X-T", b"A"]), rng.choice([b"v", b"a b"])) for _ in range(rng.randint(0, 2))] if rng.random() < 0.3 else []
+        data = enchunk(body, [rng.randint(1, max(1, len(body))) for _ in range(k)], tr, rng, rng.random() < 0.3)
+        r = rng.random()
+        if r < 0.25 and data:
+            data = corrupt1(data, rng).replace(b"\x00", b"b")
+        if rng.random() < 0.3 and data:
+            data = data[:rng.randrange(len(data) + 1)]
+        if rng.random() < 0.1:
+            data += rng.choice([b"X", b"\r\n", b"0\r\n\r\n"])
+        segs = rand_split(rng, data) or [b""]
+        lines.append("dechunk 8192 %d %s" % (rng.randint(0, 1), " ".join(C.hx(s) for s in segs)))
+    for hx_ in (b"7" + b"f" * 14, b"8" + b"0" * 14, b"f" * 15, b"f" * 16, b"1" + b"0" * 15, b"7" + b"f" * 15):
+        lines.append("dechunk 8192 0 %s" % C.hx(hx_ + b"\r\n"))
+        lines.append("dechunk 8192 0 %s %s" % (C.hx(hx_[:5]), C.hx(hx_[5:] + b"\r\n")))
+    for ln in (900, 1015, 1018):
+        lines.append("dechunk 8192 0 %s" % C.hx(b"1;" + b"x" * ln + b"\r\na\r\n0\r\n\r\n"))
+        lines.append("dechunk 8192 0 %s %s" % (C.hx(b"1;" + b"x" * ln), C.hx(b"\r\na\r\n0\r\n\r\n")))
+    return lines
+
+
+def gen_fcgi(ctx):
+    rng = ctx.rng
+    lines = []
+    n = 8000 if ctx.quick else 80000
+    for _ in range(n):
+        data = fcgi_wrap(rng, rand_body(rng, rng.choice([0, 1, 5, 30, 300])), end=rng.random() < 0.7)
+        if rng.random() < 0.3 and data:
+            data = data[:rng.randrange(len(data) + 1)]
+        segs = rand_split(rng, data) or [b""]
+        lines.append("fcgi %s" % " ".join(C.hx(s) for s in segs))
+    recs = fcgi_rec(6, b"ab", 3) + fcgi_rec(7, b"x") + fcgi_rec(6, b"c", 1) + fcgi_rec(3, b"\0" * 8)
+    width = 11 if ctx.quick else 13
+    for lo in range(0, len(recs) - width + 1, 4):
+        for segs in split_region(recs, lo, lo + width):
+            lines.append("fcgi %s" % " ".join(C.hx(s) for s in segs))
+    # record size limits
+    for n_ in (65535, 65534, 32768):
+        for pad in (0, 255):
+            lines.append("fcgi %s" % C.hx(fcgi_rec(6, b"z" * n_, pad) + fcgi_rec(3, b"\0" * 8)))
+    return lines
+
+
+def gen_big(ctx):
+    """bodies around the 64 KiB write-queue / temp-file thresholds (buffered and Content-Length streaming)"""
+    rng = ctx.rng
+    lines = []
+    sizes = [4096, 65535, 65536, 65537, 70000] if ctx.quick else [4095, 4096, 8192, 32768, 65535, 65536, 65537, 70000, 200000]
+    for n in sizes:
+        body = bytes(rng.randrange(256) for _ in range(251)) * (n // 251 + 1)
+        body = body[:n]
+        for be, head in (("proxy", b"HTTP/1.1 200 OK\r\nContent-Length: %d\r\n\r\n" % n), ("scgi", b"Status: 200\r\n\r\n")):
+            data = head + body
+            for stream, end in ((0, "eof"), (1, "eof")) if be == "proxy" else ((0, "eof"),):
+                k = rng.choice([1, 3, 9])
+                cuts = sorted(rng.sample(range(1, len(data)), k - 1))
+                segs = [data[a:b] for a, b in zip([0] + cuts, cuts + [len(data)])]
+                # one read is at most a few KiB here: cut the segments so that reads and segments coincide
+                small = []
+                for s in segs:
+                    small += [s[i:i + 3000] for i in range(0, len(s), 3000)]
+                lines.append(line(be, 11, stream, "G", end, small))
+        recs = fcgi_rec(6, b"Status: 200\r\n\r\n") + b"".join(fcgi_rec(6, body[i:i + 60000], 5) for i in range(0, n, 60000)) \
+            + fcgi_rec(6, b"") + fcgi_rec(3, b"\0" * 8)
+        lines.append(line("fcgi", 11, 0, "G", "eof", [recs[i:i + 3000] for i in range(0, len(recs), 3000)]))
+    return lines
+
+
+def run(ctx):
+    exe, err = C.build_harness("h_beresp")
+    if exe is None:
+        ctx.broken.append({"kind": "harness-build", "names": ["h_beresp"], "log": err[-3000:]})
+        return
+    ctx.differential("relay-random(h_beresp)", [exe], "beresp", gen_relay(ctx), oracle, classify)
+    ex = gen_exhaustive(ctx)
+    ctx.differential("relay-exhaustive-splits-and-cuts(h_beresp)", [exe], "beresp", ex, oracle, classify)
+    ctx.differential("relay-large-bodies(h_beresp)", [exe], "beresp", gen_big(ctx), oracle, classify)
+    ctx.differential("backend-dechunk(h_beresp)", [exe], "beresp", gen_dechunk(ctx), oracle, classify)
+    ctx.differential("fastcgi-records(h_beresp)", [exe], "beresp", gen_fcgi(ctx), oracle, classify)
+    ctx.exhaustive = ("every composition into segments of the head/body boundary, the first and the last "
+                      "%d bytes of %d short proxy/CGI responses; every cut point x every end kind "
+                      "(eof, reset, error, hangup, stall) x client protocol (1.0, 1.1, h2) x stream-response-body "
+                      "(0,1,2); every cut point of a FastCGI record stream; all splits of 8 short chunked bodies"
+                      % (11 if ctx.quick else 13, len(SHORT_PROXY) + len(SHORT_CGI)))
+    ctx.rule = ("distinct = (backend kind, client protocol, streaming mode, method, end kind, #segments class, "
+                "client outcome ka/close/pend, status class, response flags, #interim, client framing) tuples; "
+                "responses from a grammar (70% strictly well-formed) with byte corruptions, truncation at random "
+                "points, random segmentation / FastCGI record packing with padding and STDERR")
+    ctx.assumptions += [
+        "chunk-size lines of 1024 bytes or more, trailer sections beyond max-request-field-size and NUL bytes in "
+        "the last-chunk/trailer section are not generated (the C is read-boundary dependent there)",
+        "one backend read per generated segment (segments <= 3000 bytes); the socket to the client is always writable",
+        "HTTP/2 is observed as logical frames through the harness stub of the per-stream loop, h2.c is not executed",
+        "authorizer mode, Upgrade, X-Sendfile, local redirects and error handlers are switched off"]
+
+
+def replay_line(ctx, rep):
+    line_ = rep["input"]
+    exe, err = C.build_harness("h_beresp")
+    if exe is None:
+        print("harness does not build:", err[-2000:])
+        return 1
+    o, rc, e = C.run_lines([exe], [line_])
+    m, _, _ = C.run_model("beresp", [line_])
+    t = line_.split(" ")
+    print("input:", " ".join(t[:6]) if t[0] == "relay" else t[0], [C.unhx(x) for x in t[(6 if t[0] == "relay" else 1):] if len(x) % 2 == 0 or x == "-"][:40])
+    print("impl :", o, rc)
+    if rc:
+        print(e[-3000:])
+    print("model:", m)
+    v = oracle(line_, o[0]) if o else "crash"
+    print("oracle:", v)
+    if v or (o != m):
+        print("VIOLATION property=%s replay=(replayed)" % ctx.pid)
+        return 1
+    return 0
